@@ -237,6 +237,9 @@ class Logic:
             return ("true",)
         if t == ("const", "bool", 0):
             return ("false",)
+        if t[0] == "bin" and t[1] in ("LAnd", "LOr") and len(t) == 4:
+            # the value of a short-circuit `a && b` / `a || b` (terms._fold_bool_diamond)
+            return (f_and if t[1] == "LAnd" else f_or)([self.of_term(t[2], True), self.of_term(t[3], True)])
         r = canon_rel(t, True)
         if r:
             a_, b_ = nosite(canon_index(norm_elems(r[1]))), nosite(canon_index(norm_elems(r[2])))
